@@ -220,131 +220,121 @@ Definition dec_key (strict reject_tags : bool) (bs : bytes) : option (bytes * by
 (* One data item.  [tag] is the tag already read in front of this item (refmt reads a single
    level of tags).  [pre] is a cost the caller charges after the item's first token has been
    read successfully and before it is processed (listEntryCost for list elements).
-   Returns the value, the remaining budget and the remaining input. *)
-Fixpoint dec_val (fuel : nat) (o : dopts) (depth : Z) (bud : Z) (pre : option Z)
-  (tag : option N) (bs : bytes) {struct fuel} : res derr (dm * Z * bytes) :=
-  match fuel with O => Err DFuel | S f =>
-  let strict := negb (d_relaxed o) in
-  let prespend : res derr Z := match pre with Some c => spend bud c | None => Ok bud end in
+   Returns the value, the remaining budget and the remaining input.
+
+   The bodies are written as non-recursive functions of the recursive calls (rv, ri, re) so
+   that lemmas about one step can be stated without unfolding the fixpoint. *)
+Definition vres := res derr (dm * Z * bytes).
+Definition ires := res derr (list dm * Z * bytes).
+Definition eres := res derr (list (bytes * dm) * Z * bytes).
+
+Section Bodies.
+  Variable rv : Z -> Z -> option Z -> option N -> bytes -> vres.   (* depth bud pre tag bs *)
+  Variable ri : Z -> Z -> N -> bytes -> ires.                      (* depth bud n bs *)
+  Variable re : Z -> Z -> N -> list bytes -> bytes -> eres.        (* depth bud n seen bs *)
+  Variable o : dopts.
+
+  Definition prespend (bud : Z) (pre : option Z) : res derr Z :=
+    match pre with Some c => spend bud c | None => Ok bud end.
+
   (* token read; charge [pre]; refuse a tag (repaired tree); continue with the budget *)
-  let post (k : Z -> res derr (dm * Z * bytes)) : res derr (dm * Z * bytes) :=
-      do bud1 <- prespend;
-      match tag with
-      | Some _ => if d_reject_tags o then Err DOther else k bud1
-      | None => k bud1
-      end in
-  match bs with
-  | [] => Err DOther
-  | b :: r =>
-    if (b =? 246) || (b =? 247) then post (fun bud1 => Ok (DNull, bud1, r))
-    else if b =? 244 then post (fun bud1 => do bud' <- spend bud1 1; Ok (DBool false, bud', r))
-    else if b =? 245 then post (fun bud1 => do bud' <- spend bud1 1; Ok (DBool true, bud', r))
-    else if (b =? 249) || (b =? 250) || (b =? 251) then
-      let w := if b =? 249 then 2 else if b =? 250 then 4 else 8 in
-      match take w r with
+  Definition post (bud : Z) (pre : option Z) (tag : option N) (k : Z -> vres) : vres :=
+    do bud1 <- prespend bud pre;
+    match tag with
+    | Some _ => if d_reject_tags o then Err DOther else k bud1
+    | None => k bud1
+    end.
+
+  (* after the head (major type mj < 7, argument a) has been read *)
+  Definition dec_major (depth bud : Z) (pre : option Z) (tag : option N) (mj a : N) (r : bytes) : vres :=
+    if mj =? 0 then
+      post bud pre tag (fun bud1 => do bud' <- spend bud1 1; Ok (DInt (Z.of_N a), bud', r))
+    else if mj =? 1 then
+      (* refmt: pos := ui + 1 (uint64, wraps); if pos > 2^63 error; -int64(pos) *)
+      let pos := (a + 1) mod two64 in
+      if two63 <? pos then Err DOther
+      else post bud pre tag (fun bud1 => do bud' <- spend bud1 1; Ok (DInt (- Z.of_N pos), bud', r))
+    else if two63 <=? a then Err DOther       (* decodeLen: must fit Go's int *)
+    else if mj =? 2 then
+      if str_cap <? a then Err DOther else
+      match take a r with
       | None => Err DOther
-      | Some (x, r') =>
-        let raw := unbe x 0 in
-        let f := if b =? 249 then widen16 raw else if b =? 250 then widen32 raw else raw in
-        match check_float strict f with
-        | None => Err DOther
-        | Some f => post (fun bud1 => do bud' <- spend bud1 1; Ok (DFloat f, bud', r'))
+      | Some (s, r'') =>
+        do bud1 <- prespend bud pre;
+        do bud' <- spend bud1 (Z.of_N a);
+        match tag with
+        | None => Ok (DBytes s, bud', r'')
+        | Some t =>
+          if (t =? go_linkTag) && d_allow_links o then
+            match s with
+            | 0 :: c => if cid_valid c then Ok (DLink c, bud', r'') else Err DOther
+            | _ => Err DOther
+            end
+          else Err DOther
         end
       end
-    else if (b =? 95) || (b =? 127) || (b =? 159) || (b =? 191) then Err DOther  (* indefinite *)
-    else
-      let mj := b / 32 in let ai := b mod 32 in
-      if mj =? 0 then
-        match dec_arg strict ai r with
+    else if mj =? 3 then
+      if str_cap <? a then Err DOther else
+      match take a r with
+      | None => Err DOther
+      | Some (s, r'') =>
+        post bud pre tag (fun bud1 => do bud' <- spend bud1 (Z.of_N a); Ok (DString s, bud', r''))
+      end
+    else if mj =? 4 then
+      post bud pre tag (fun bud1 =>
+        if (max_depth o <=? depth)%Z then Err DDepth else
+        do bud' <- spend bud1 (Z.of_N a);
+        do res <- ri depth bud' a r;
+        let '(vs, bud'', r'') := res in Ok (DList vs, bud'', r''))
+    else if mj =? 5 then
+      post bud pre tag (fun bud1 =>
+        if (max_depth o <=? depth)%Z then Err DDepth else
+        do bud' <- spend bud1 (Z.of_N a);
+        do res <- re depth bud' a [] r;
+        let '(vs, bud'', r'') := res in Ok (DMap vs, bud'', r''))
+    else (* mj = 6 *)
+      match tag with
+      | Some _ => Err DOther                    (* multiple tags on one item *)
+      | None => rv depth bud pre (Some a) r
+      end.
+
+  Definition dec_val_body (depth bud : Z) (pre : option Z) (tag : option N) (bs : bytes) : vres :=
+    let strict := negb (d_relaxed o) in
+    match bs with
+    | [] => Err DOther
+    | b :: r =>
+      if (b =? 246) || (b =? 247) then post bud pre tag (fun bud1 => Ok (DNull, bud1, r))
+      else if b =? 244 then post bud pre tag (fun bud1 => do bud' <- spend bud1 1; Ok (DBool false, bud', r))
+      else if b =? 245 then post bud pre tag (fun bud1 => do bud' <- spend bud1 1; Ok (DBool true, bud', r))
+      else if (b =? 249) || (b =? 250) || (b =? 251) then
+        let w := if b =? 249 then 2 else if b =? 250 then 4 else 8 in
+        match take w r with
         | None => Err DOther
-        | Some (v, r') =>
-          post (fun bud1 => do bud' <- spend bud1 1; Ok (DInt (Z.of_N v), bud', r'))
-        end
-      else if mj =? 1 then
-        match dec_arg strict ai r with
-        | None => Err DOther
-        | Some (v, r') =>
-          (* refmt: pos := ui + 1 (uint64, wraps); if pos > 2^63 error; -int64(pos) *)
-          let pos := (v + 1) mod two64 in
-          if two63 <? pos then Err DOther
-          else post (fun bud1 => do bud' <- spend bud1 1; Ok (DInt (- Z.of_N pos), bud', r'))
-        end
-      else if mj =? 2 then
-        match dec_len strict ai r with
-        | None => Err DOther
-        | Some (n, r') =>
-          if str_cap <? n then Err DOther else
-          match take n r' with
+        | Some (x, r') =>
+          let raw := unbe x 0 in
+          let f := if b =? 249 then widen16 raw else if b =? 250 then widen32 raw else raw in
+          match check_float strict f with
           | None => Err DOther
-          | Some (s, r'') =>
-            do bud1 <- prespend;
-            do bud' <- spend bud1 (Z.of_N n);
-            match tag with
-            | None => Ok (DBytes s, bud', r'')
-            | Some t =>
-              if (t =? go_linkTag) && d_allow_links o then
-                match s with
-                | 0 :: c => if cid_valid c then Ok (DLink c, bud', r'') else Err DOther
-                | _ => Err DOther
-                end
-              else Err DOther
-            end
+          | Some f => post bud pre tag (fun bud1 => do bud' <- spend bud1 1; Ok (DFloat f, bud', r'))
           end
         end
-      else if mj =? 3 then
-        match dec_len strict ai r with
+      else if (b =? 95) || (b =? 127) || (b =? 159) || (b =? 191) then Err DOther  (* indefinite *)
+      else if 224 <=? b then Err DOther          (* other simple values, break, 1-byte simple *)
+      else
+        match dec_arg strict (b mod 32) r with
         | None => Err DOther
-        | Some (n, r') =>
-          if str_cap <? n then Err DOther else
-          match take n r' with
-          | None => Err DOther
-          | Some (s, r'') =>
-            post (fun bud1 => do bud' <- spend bud1 (Z.of_N n); Ok (DString s, bud', r''))
-          end
+        | Some (a, r') => dec_major depth bud pre tag (b / 32) a r'
         end
-      else if mj =? 4 then
-        match dec_len strict ai r with
-        | None => Err DOther
-        | Some (n, r') =>
-          post (fun bud1 =>
-          if (max_depth o <=? depth)%Z then Err DDepth else
-          do bud' <- spend bud1 (Z.of_N n);
-          do res <- dec_items f o depth bud' n r';
-          let '(vs, bud'', r'') := res in Ok (DList vs, bud'', r''))
-        end
-      else if mj =? 5 then
-        match dec_len strict ai r with
-        | None => Err DOther
-        | Some (n, r') =>
-          post (fun bud1 =>
-          if (max_depth o <=? depth)%Z then Err DDepth else
-          do bud' <- spend bud1 (Z.of_N n);
-          do res <- dec_entries f o depth bud' n [] r';
-          let '(vs, bud'', r'') := res in Ok (DMap vs, bud'', r''))
-        end
-      else if mj =? 6 then
-        match tag with
-        | Some _ => Err DOther                    (* multiple tags on one item *)
-        | None =>
-          match dec_len strict ai r with
-          | None => Err DOther
-          | Some (t, r') => dec_val f o depth bud pre (Some t) r'
-          end
-        end
-      else Err DOther
-  end end
-with dec_items (fuel : nat) (o : dopts) (depth : Z) (bud : Z) (n : N) (bs : bytes)
-  {struct fuel} : res derr (list dm * Z * bytes) :=
-  match fuel with O => Err DFuel | S f =>
+    end.
+
+  Definition dec_items_body (depth bud : Z) (n : N) (bs : bytes) : ires :=
     if n =? 0 then Ok ([], bud, bs) else
-    do r1 <- dec_val f o (depth + 1) bud (Some go_listEntryCost) None bs;
+    do r1 <- rv (depth + 1)%Z bud (Some go_listEntryCost) None bs;
     let '(v, bud2, bs2) := r1 in
-    do r2 <- dec_items f o depth bud2 (n - 1) bs2;
-    let '(vs, bud3, bs3) := r2 in Ok (v :: vs, bud3, bs3)
-  end
-with dec_entries (fuel : nat) (o : dopts) (depth : Z) (bud : Z) (n : N) (seen : list bytes)
-  (bs : bytes) {struct fuel} : res derr (list (bytes * dm) * Z * bytes) :=
-  match fuel with O => Err DFuel | S f =>
+    do r2 <- ri depth bud2 (n - 1) bs2;
+    let '(vs, bud3, bs3) := r2 in Ok (v :: vs, bud3, bs3).
+
+  Definition dec_entries_body (depth bud : Z) (n : N) (seen : list bytes) (bs : bytes) : eres :=
     if n =? 0 then Ok ([], bud, bs) else
     match dec_key (negb (d_relaxed o)) (d_reject_tags o) bs with
     | None => Err DOther
@@ -352,11 +342,30 @@ with dec_entries (fuel : nat) (o : dopts) (depth : Z) (bud : Z) (n : N) (seen : 
       do bud1 <- spend bud (Z.of_N (lenN k) + go_mapEntryCost);
       (* strict: dagcbor's own seenKeys; relaxed: the basicnode map assembler still refuses *)
       if existsb (bytes_eqb k) seen then Err DOther else
-      do r1 <- dec_val f o (depth + 1) bud1 None None bs1;
+      do r1 <- rv (depth + 1)%Z bud1 None None bs1;
       let '(v, bud2, bs2) := r1 in
-      do r2 <- dec_entries f o depth bud2 (n - 1) (k :: seen) bs2;
+      do r2 <- re depth bud2 (n - 1) (k :: seen) bs2;
       let '(vs, bud3, bs3) := r2 in Ok ((k, v) :: vs, bud3, bs3)
-    end
+    end.
+End Bodies.
+
+Fixpoint dec_val (fuel : nat) (o : dopts) (depth : Z) (bud : Z) (pre : option Z)
+  (tag : option N) (bs : bytes) {struct fuel} : vres :=
+  match fuel with
+  | O => Err DFuel
+  | S f => dec_val_body (dec_val f o) (dec_items f o) (dec_entries f o) o depth bud pre tag bs
+  end
+with dec_items (fuel : nat) (o : dopts) (depth : Z) (bud : Z) (n : N) (bs : bytes)
+  {struct fuel} : ires :=
+  match fuel with
+  | O => Err DFuel
+  | S f => dec_items_body (dec_val f o) (dec_items f o) depth bud n bs
+  end
+with dec_entries (fuel : nat) (o : dopts) (depth : Z) (bud : Z) (n : N) (seen : list bytes)
+  (bs : bytes) {struct fuel} : eres :=
+  match fuel with
+  | O => Err DFuel
+  | S f => dec_entries_body (dec_val f o) (dec_entries f o) o depth bud n seen bs
   end.
 
 Definition dec_fuel (bs : bytes) : nat := 2 * length bs + 2.
